@@ -388,6 +388,14 @@ TraceDatagram ==
   /\ Rule(l, "ReplyParses", Ev.reply # <<>> => (Ev.reparse = "ok" /\ RefDecode(Ev.reply).ok),
           <<Ev.role, "reply-len", Len(Ev.reply), Ev.reparse>>)
 
+(* NetRun (C14, sampled on real sockets): e.sent datagrams were multicast to a running         *)
+(* SimpleMdnsResponder and ServiceDiscovery; e.panics = panics observed on library threads;   *)
+(* e.usable = the application could still call get_known_services ("yes"/"no"/"inconclusive")  *)
+TraceNetRun ==
+  /\ Ev.ev = "NetRun"
+  /\ Rule(l, "LoopAlive", Ev.panics = <<>>, <<"panic on a library thread", Ev.panics>>)
+  /\ Rule(l, "LockClean", Ev.usable # "no", <<"store unusable after hostile traffic">>)
+
 (* Reparse (C11): bytes e.b accepted by the parser (e.p1), re-serialised plain  *)
 (* (e.b2) and compressed (e.b3), each parsed again (e.p2, e.p3)                 *)
 TraceReparse ==
@@ -493,7 +501,7 @@ Stateless ==
            \/ TraceNameDecode
            \/ TraceNameNew \/ TraceLabelNew \/ TraceNameRel
            \/ TraceTxtSplit \/ TraceTxtAttrs \/ TraceTxtRaw \/ TraceTxtLong \/ TraceCStrNew
-           \/ TraceDiscover \/ TraceEscape \/ TraceDatagram
+           \/ TraceDiscover \/ TraceEscape \/ TraceDatagram \/ TraceNetRun
            \/ TraceValueCmp \/ TraceParse \/ TracePeek \/ TraceInspect \/ TraceSinkBuild \/ TraceRoundTrip \/ TraceReparse
            \/ TraceCodeConv \/ TraceMnemonics \/ TraceMatchType \/ TraceMatchClass
 
